@@ -733,19 +733,30 @@ func (h *Hydrator) CatchUp(ctx context.Context, fromTXID, toTXID ltx.TXID) error
 	}
 	defer itr.Close()
 
+	txid := fromTXID
 	for itr.Next() {
 		info := itr.Item()
 		if info.MaxTXID > toTXID {
 			break
+		}
+		if info.MinTXID != txid+1 {
+			return fmt.Errorf("non-contiguous ltx file for catch-up: have %s, next %s-%s", txid, info.MinTXID, info.MaxTXID)
 		}
 
 		if err := h.ApplyLTX(ctx, info); err != nil {
 			return fmt.Errorf("apply ltx to hydrated file: %w", err)
 		}
 
+		txid = info.MaxTXID
 		h.mu.Lock()
-		h.txid = info.MaxTXID
+		h.txid = txid
 		h.mu.Unlock()
+	}
+	if err := itr.Err(); err != nil {
+		return fmt.Errorf("list ltx files for catch-up: %w", err)
+	}
+	if txid != toTXID {
+		return fmt.Errorf("ltx files for catch-up end at %s, want %s", txid, toTXID)
 	}
 
 	return nil
@@ -1193,7 +1204,33 @@ func (f *VFSFile) ResetTime(ctx context.Context) error {
 		return fmt.Errorf("no backup files available")
 	}
 
-	return f.rebuildIndex(ctx, infos, nil)
+	// The hydrated file is at the position of the last poll. Serve reads
+	// through the page index while the position jumps, then bring the file up
+	// to the new position before hydrated reads are switched on again.
+	hydrated := f.hydrator != nil && f.hydrator.Complete()
+	if hydrated {
+		f.hydrator.Disable()
+	}
+
+	if err := f.rebuildIndex(ctx, infos, nil); err != nil {
+		return err
+	}
+
+	if hydrated {
+		pos := f.Pos()
+		if txid := f.hydrator.TXID(); txid < pos.TXID {
+			if err := f.hydrator.CatchUp(ctx, txid, pos.TXID); err != nil {
+				f.logger.Warn("cannot bring hydrated file up to date, leaving hydrated reads off", "error", err)
+				return nil
+			}
+		}
+		f.mu.Lock()
+		if f.targetTime == nil && f.pos.TXID == f.hydrator.TXID() {
+			f.hydrator.SetComplete()
+		}
+		f.mu.Unlock()
+	}
+	return nil
 }
 
 // rebuildIndex constructs a fresh page index and swaps it into the VFSFile.
@@ -1339,16 +1376,35 @@ func (f *VFSFile) runHydration(infos []*ltx.FileInfo) {
 		hydrationTXID = f.hydrator.TXID()
 	}
 
-	if currentTXID > hydrationTXID {
-		if err := f.hydrator.CatchUp(f.ctx, hydrationTXID, currentTXID); err != nil {
-			f.hydrator.SetErr(err)
-			f.logger.Error("hydration catch-up failed", "error", err)
+	// The position may move (polls, time travel requests) while the file is
+	// being hydrated. Hydrated reads are only switched on, under the lock that
+	// serializes position changes, once the file is at the current position.
+	for {
+		if currentTXID > hydrationTXID {
+			if err := f.hydrator.CatchUp(f.ctx, hydrationTXID, currentTXID); err != nil {
+				f.hydrator.SetErr(err)
+				f.logger.Error("hydration catch-up failed", "error", err)
+				return
+			}
+			hydrationTXID = f.hydrator.TXID()
+		}
+
+		verifVFSPhase(f, "hydration_before_complete")
+
+		f.mu.Lock()
+		if f.targetTime != nil || f.pos.TXID < hydrationTXID {
+			f.mu.Unlock()
+			f.logger.Debug("position moved back during hydration, leaving hydrated reads off")
 			return
 		}
+		if f.pos.TXID == hydrationTXID {
+			f.hydrator.SetComplete()
+			f.mu.Unlock()
+			break
+		}
+		currentTXID = f.pos.TXID
+		f.mu.Unlock()
 	}
-
-	verifVFSPhase(f, "hydration_before_complete")
-	f.hydrator.SetComplete()
 
 	// Clear cache since we'll now read from hydration file
 	f.cache.Purge()
@@ -2651,7 +2707,10 @@ func (f *VFSFile) pollReplicaClient(ctx context.Context) error {
 	// Apply updates to hydrated file if hydration is complete
 	if f.hydrator != nil && f.hydrator.Complete() && len(combined) > 0 {
 		if err := f.hydrator.ApplyUpdates(f.ctx, combined); err != nil {
-			f.logger.Error("failed to apply updates to hydrated file", "error", err)
+			f.logger.Error("failed to apply updates to hydrated file, switching hydrated reads off", "error", err)
+			f.hydrator.Disable()
+		} else {
+			f.hydrator.SetTXID(f.pos.TXID)
 		}
 	}
 
